@@ -172,6 +172,18 @@ func (g *G) genRandom(id string, opt randOpt) *History {
 			if g.chance(0.2) {
 				hh = append(hh, [2]string{"Content-Location", pick(g, resources[res[g.r.Intn(nres)]].spellings...)})
 			}
+			if g.chance(0.2) {
+				// both fields, in either order: one names another origin, the other a stored resource of this one
+				other := [2]string{"Location", pick(g, "http://other.test/p1", "https://a.test/p1", "http://a.test:8080/p1")}
+				same := [2]string{"Content-Location", pick(g, r.spellings...)}
+				if g.chance(0.3) {
+					other[0], same[0] = same[0], other[0]
+				}
+				hh = Hdr{{"Date", dateAt(at, 0)}, other, same}
+				if g.chance(0.5) {
+					hh = Hdr{{"Date", dateAt(at, 0)}, same, other}
+				}
+			}
 			rp = Reply{Status: st, Hdr: hh, Body: "m", BodyFail: -1}
 		case opt.statuses && g.chance(0.3):
 			st := g.genStored("")
@@ -332,8 +344,10 @@ func (g *G) classes() []genClass {
 		return []genClass{{5, grid}, {3, chain}, {2, sie}, {1, status}, {1, vary}}
 	case "C13":
 		return []genClass{{5, grid}, {4, sie}, {1, chain}, {1, status}}
-	case "C02", "C18":
+	case "C02":
 		return []genClass{{7, grid}, {1, chain}, {1, sie}, {1, status}, {1, vary}}
+	case "C18":
+		return []genClass{{6, grid}, {2, gridFault}, {1, chain}, {1, sie}, {1, status}, {1, vary}}
 	case "C06":
 		return []genClass{{4, grid}, {4, status}, {1, faults}, {1, inval}}
 	case "C10":
